@@ -55,6 +55,23 @@ def check_no_panic(ctx, rep, tier):
     if not (ctx.facts['overflow_checks'] and ctx.facts['debug_assertions']) and ctx.facts['_flavour'] == 'dev':
         rep.finding('C08 build-flags', 'dev-profile facts were not built with overflow checks and debug assertions on')
     covered_fns = set()
+    # stack exhaustion is a trap too: a local of several hundred KiB overflows the stack of an interrupt handler
+    def ty_bytes(t):
+        k = t.get('k')
+        if k == 'array' and t.get('len') is not None:
+            return t['len'] * max(1, ty_bytes(t['elem']))
+        if k == 'tuple':
+            return sum(ty_bytes(x) for x in t['elems'])
+        if k == 'int':
+            return t['bits'] // 8
+        return 1
+    for f in handwritten:
+        for body in iter_bodies(f):
+            big = [(i, ty_bytes(l['ty'])) for i, l in enumerate(body['locals']) if ty_bytes(l['ty']) > 64 * 1024]
+            for i, nbytes in big:
+                rep.finding('C08 stack %s' % f['path'], 'local _%d of %s occupies about %d KiB of stack: an operation that needs it cannot be '
+                                                        'relied on to return normally on an embedded or interrupt stack' % (i, f['path'], nbytes // 1024))
+    rep.ob('no oversized stack locals', 1)
 
     # ---- 1. frame decoder --------------------------------------------------
     f_new = find_method(ctx, PS2, 'new')
